@@ -960,3 +960,130 @@ func TestC08Services(t *testing.T) {
 		Check: c08SvcCheck,
 	})
 }
+
+// ---------------------------------------------------------------- C12: Ctrl-C while an http probe waits at any of its requests
+//
+// One scripted service that answers every request of a probe except one, at which it stalls; the real SIGINT is sent when
+// the server sees that request. Whatever request the probe is waiting in, the command ends promptly - it does not sit out the
+// request timeout (20 s here).
+
+type c12SvcCase struct {
+	Scan    string  `json:"scan"`
+	Proto   string  `json:"proto"`
+	StallAt string  `json:"request_that_stalls"` // primary | secondary | ping
+	MidBody bool    `json:"stall_in_the_middle_of_the_body"`
+	Workers int     `json:"workers"`
+	IP      [4]byte `json:"ip"`
+}
+
+func c12SvcCheck(c c12SvcCase) *kit.Verdict {
+	v := &kit.Verdict{Units: 1}
+	v.Label("scan=%s/%s", c.Scan, c.Proto)
+	v.Label("stall-at=%s", c.StallAt)
+	srv := c10GetServer()
+	obj := `{"ID":"X","Name":"x","cluster_name":"x"}`
+	ok := c10Resp{Status: 200, Framing: "length", Kind: "object", Body: obj}
+	stall := c10Resp{Status: 200, Framing: "length", Kind: "object", Body: obj, Stall: !c.MidBody, MidStall: c.MidBody}
+	cs := c10Case{Scan: c.Scan, Proto: c.Proto, IP: c.IP, Primary: ok, Second: ok, Ping: c10Resp{Status: 200, Framing: "length", Kind: "empty", APIVersion: "1.41"}}
+	var wantReq func(string) bool
+	switch c.StallAt {
+	case "primary":
+		cs.Primary = stall
+		wantReq = func(r string) bool { return r == "GET /" || strings.HasSuffix(r, "/info") }
+	case "secondary":
+		cs.Second = stall
+		wantReq = func(r string) bool { return strings.HasSuffix(r, "/_aliases") || strings.HasSuffix(r, "/version") }
+	default:
+		cs.Ping = c10Resp{Stall: true}
+		wantReq = func(r string) bool { return strings.HasSuffix(r, "/_ping") }
+	}
+	sc := &c10Script{c: cs, release: make(chan struct{})}
+	srv.mu.Lock()
+	if srv.scripts[c.IP] != nil {
+		srv.mu.Unlock()
+		return &kit.Verdict{Inconclusive: true}
+	}
+	srv.scripts[c.IP] = sc
+	srv.mu.Unlock()
+	defer func() {
+		close(sc.release)
+		srv.mu.Lock()
+		delete(srv.scripts, c.IP)
+		srv.mu.Unlock()
+	}()
+	l := srv.plain
+	if c.Proto == "https" {
+		l = srv.tls
+	}
+	port := l.Addr().(*net.TCPAddr).Port
+	// interrupt as soon as the server has seen the request that stalls
+	stop := make(chan struct{})
+	var sentAt time.Time
+	var smu sync.Mutex
+	go func() {
+		for {
+			select {
+			case <-stop:
+				return
+			default:
+			}
+			for _, r := range sc.requests() {
+				if wantReq(r) {
+					time.Sleep(10 * time.Millisecond)
+					smu.Lock()
+					sentAt = time.Now()
+					smu.Unlock()
+					sendSIGINT()
+					return
+				}
+			}
+			time.Sleep(2 * time.Millisecond)
+		}
+	}()
+	args := []string{c.Scan, "--json", "--timeout", "20s", "--exit-delay", "50ms", "-w", fmt.Sprint(c.Workers), "-p", fmt.Sprint(port), "--proto", c.Proto, net.IP(c.IP[:]).String()}
+	res := runCmd(cmdRun{Args: args, Timeout: c12Limit})
+	close(stop)
+	line := "sx " + strings.Join(args, " ")
+	if res.Hung {
+		return v.Failf("%s\nSIGINT while the probe was waiting for the answer to its %s request (timeout 20 s): Execute() had not returned %v later\n%s", line, c.StallAt, c12Limit, clipN(res.Goroutines, 3000))
+	}
+	smu.Lock()
+	at := sentAt
+	smu.Unlock()
+	if at.IsZero() {
+		// the probe never made that request (docker without a ping, an earlier failure): nothing to judge
+		return &kit.Verdict{Inconclusive: true}
+	}
+	if took := res.Returned.Sub(at); took > 8*time.Second {
+		return v.Failf("%s\nSIGINT while the probe was waiting for the answer to its %s request: the command needed %v to end (the request timeout is 20 s; it must not be sat out)", line, c.StallAt, took)
+	}
+	if res.Err != nil && strings.HasPrefix(res.Err.Error(), "PANIC") {
+		return v.Failf("%s: %v", line, res.Err)
+	}
+	if res.LateStdout != "" || res.LateStderr != "" {
+		return v.Failf("%s: output after the return: %q %q", line, clipN(res.LateStdout, 200), clipN(res.LateStderr, 200))
+	}
+	if err := completeJSONLines(res.Stdout); err != nil {
+		return v.Failf("%s: %v", line, err)
+	}
+	v.NonTrivial = true
+	return v
+}
+
+func TestC12Services(t *testing.T) {
+	kit.Run(t, kit.Spec[c12SvcCase]{
+		Prop: "C12",
+		Rule: "full elastic / docker commands (http, https; request timeout 20 s) against one scripted service that answers every request of the probe except a drawn one (primary info, secondary, docker ping), where it stalls before the headers or in the middle of the body; the real SIGINT is sent when the server has seen that request. Oracle: Execute() returns within 8 s of the interrupt (the timeout is not sat out), no panic, nothing after the return, complete lines. non-trivial: always; distinct by case",
+		Gen: func(t *rapid.T) c12SvcCase {
+			c := c12SvcCase{Scan: rapid.SampledFrom([]string{"elastic", "docker"}).Draw(t, "scan"), Proto: rapid.SampledFrom([]string{"http", "https"}).Draw(t, "proto"),
+				StallAt: rapid.SampledFrom([]string{"primary", "secondary", "secondary"}).Draw(t, "stall-at"), MidBody: rapid.Bool().Draw(t, "mid-body"),
+				Workers: rapid.SampledFrom([]int{1, 8, 100}).Draw(t, "workers"),
+				IP:      [4]byte{127, 77, byte(rapid.IntRange(0, 255).Draw(t, "ip2")), byte(rapid.IntRange(2, 254).Draw(t, "ip3"))}}
+			if c.Scan == "docker" && rapid.IntRange(0, 2).Draw(t, "ping") == 0 {
+				c.StallAt, c.MidBody = "ping", false
+			}
+			return c
+		},
+		Check: c12SvcCheck,
+	})
+}
